@@ -130,19 +130,19 @@ for (L, K) in ((28, 1), (28, 4), (32, 5), (32, 8)):
     for OFF in range(8 * L):
         add(name="c03_fault_burst_%d_%d_o%d" % (L, K, OFF), prop="C03", crate="det",
             expr="crate::c03::fault_burst::<%d, %d, %d, %d>" % (L, K, D, OFF), unwind=18, unwindset=BOARD_LOOPS,
-            cap_s=600, mem_gb=4, est_s=80, family="fault_burst", funcs=CHUNK_FUNCS, witnesses=FAULT_W, klass="best",
+            cap_s=300, mem_gb=4, est_s=80, family="fault_burst", funcs=CHUNK_FUNCS, witnesses=FAULT_W, klass="best",
             sched="pool" if (L, K) in ((28, 1), (32, 8)) else "thorough",
             params={"len": L, "chunk_length": K, "board": D, "first_flipped_bit": OFF, "error": "any burst of <= 32 bits starting there"})
     if (L, K) in ((28, 1), (32, 8)):
         for (a, b) in itertools.combinations(range(NW), 2):
             add(name="c03_fault_w2_%d_%d_w%d_%d" % (L, K, a, b), prop="C03", crate="det",
                 expr="crate::c03::fault_w2::<%d, %d, %d, %d, %d>" % (L, K, D, a, b), unwind=18, unwindset=BOARD_LOOPS,
-                cap_s=600, mem_gb=4, est_s=80, family="fault_w2", funcs=CHUNK_FUNCS, witnesses=FAULT_W, sched="pool", klass="best",
+                cap_s=300, mem_gb=4, est_s=80, family="fault_w2", funcs=CHUNK_FUNCS, witnesses=FAULT_W, sched="pool", klass="best",
                 params={"len": L, "chunk_length": K, "board": D, "words": [a, b], "error": "weight <= 3, both words hit"})
         for (a, b, c) in itertools.combinations(range(NW), 3):
             add(name="c03_fault_w3_%d_%d_w%d_%d_%d" % (L, K, a, b, c), prop="C03", crate="det",
                 expr="crate::c03::fault_w3::<%d, %d, %d, %d, %d, %d>" % (L, K, D, a, b, c), unwind=18, unwindset=BOARD_LOOPS,
-                cap_s=600, mem_gb=4, est_s=80, family="fault_w3", funcs=CHUNK_FUNCS, witnesses=FAULT_W, sched="pool", klass="best",
+                cap_s=300, mem_gb=4, est_s=80, family="fault_w3", funcs=CHUNK_FUNCS, witnesses=FAULT_W, sched="pool", klass="best",
                 params={"len": L, "chunk_length": K, "board": D, "words": [a, b, c], "error": "one bit in each word"})
     add(name="c03_fault_bit_%d_%d" % (L, K), prop="C03", crate="det", expr="crate::c03::fault_bit::<%d, %d, %d>" % (L, K, D),
         unwind=18, unwindset=BOARD_LOOPS, cap_s=3600, mem_gb=8, est_s=1300, family="fault_bit", funcs=CHUNK_FUNCS,
@@ -153,7 +153,7 @@ for (L, K) in ((28, 1), (28, 4), (32, 5), (32, 8)):
         witnesses=["accepted"], sched="thorough", klass="best",
         params={"len": L, "chunk_length": K, "clause": "header_crc32c()/payload_crc32c() reproduce the stored words"})
 META["C03"] = {
-    "pool_k": 10,
+    "pool_k": 6,
     "budget_s": {"thorough": 4 * 3600},
     "bounds": "chunks of 28 and 32 bytes (payload 1..=8) with every declared length in/around the valid window: accept <=> "
               "reference predicate incl. both CRC-32C words over bytes 0..16 and 20..len-4, field-wise round trip; thorough adds "
@@ -403,17 +403,17 @@ def _drift_lengths():
     except Exception:
         return [537] * 92
 DRIFT_LEN = _drift_lengths()
-MODES = {0: "full", 1: "first12", 2: "last12", 3: "mid48"}
+MODES = {0: "full", 1: "first8", 2: "last8", 3: "mid48"}
 def drift(K, M, sched, klass="core", fams=("range_and_bounds", "knots", "symmetry", "monotone_continuous")):
-    n = {0: DRIFT_LEN[K], 1: 12, 2: 12, 3: 48}[M]
+    n = {0: DRIFT_LEN[K], 1: 8, 2: 8, 3: 48}[M]
     heavy = n > 100
     for fam in fams:
         two = fam in ("symmetry", "monotone_continuous")
         wit = {"range_and_bounds": ["inside", "beyond-last-knot", "before-first-knot"], "knots": ["first-knot", "last-knot"],
                "symmetry": ["inside"], "monotone_continuous": ["two-inside"]}[fam]
-        est = (2400 if heavy else 60) * (2 if two else 1)
+        est = (2400 if heavy else (200 if n > 8 else 60)) * (2 if two else 1)
         add(name="c18_%s_t%d_%s" % (fam, K, MODES[M]), prop="C18", crate="phys", expr="crate::c18::%s::<%d, %d>" % (fam, K, M),
-            unwind=4, unwindset=[(p, n + 5) for p, _ in DRIFT_LOOPS], cap_s=3 * est + 300, mem_gb=12 if heavy else 4, est_s=est,
+            unwind=4, unwindset=[(p, n + 5) for p, _ in DRIFT_LOOPS], cap_s=(3 * est + 300) if heavy else 800, mem_gb=12 if heavy else 4, est_s=est,
             family=fam, funcs=DRIFT_FUNCS, witnesses=wit, klass=("best" if (heavy or two) else klass),
             sched=("thorough" if two else sched),
             params={"table": K, "knots": MODES[M], "of": DRIFT_LEN[K], "t": "[-1e-6, 5e-6] s", "z": "within the slice"})
@@ -423,7 +423,7 @@ for K in range(92):
     drift(K, 1, q, fams=fams)
     drift(K, 2, q, fams=fams)
 for K in (0, 6, 45, 91):
-    drift(K, 3, "pool" if K in (0, 91) else "thorough", fams=("range_and_bounds", "knots"))
+    drift(K, 3, "thorough", fams=("range_and_bounds", "knots"))
 for K in (0, 91, 6):
     drift(K, 0, "thorough", klass="best", fams=("range_and_bounds", "knots"))
 for J in range(12):
@@ -432,10 +432,10 @@ for J in range(12):
         sched="always" if J in (0, 11) else "pool",
         params={"z": "[-1.3, 1.3] m", "bounds": "real z bounds %d..%d" % (8 * J, min(8 * J + 8, 92))})
 META["C18"] = {
-    "pool_k": 4,
+    "pool_k": 2,
     "budget_s": {"thorough": 5 * 3600},
     "bounds": "per real table K (tables as alpha_g_physics loads them, dumped bit-exactly at every run): windows of consecutive real "
-              "knots - first 12, last 12 (all 92 tables in thorough; tables 0 and 91 plus 4 seeded in quick), the 48 middle knots "
+              "knots - first 8, last 8 (all 92 tables in thorough; tables 0 and 91 plus 2 seeded in quick), the 48 middle knots "
               "(tables 0, 6, 45, 91) and the complete tables 0, 6, 91 (best effort) - t in [-1e-6, 5e-6] s, z anywhere in the slice: "
               "range iff / error kind, radius and correction bounds, knot reproduction to 1e-12; slice selection and its z symmetry "
               "over the 92 real z bounds in 12 windows of 8; two-lookup clauses (monotone, 8 ns continuity, per-table symmetry) are "
@@ -475,7 +475,6 @@ add(name="c20_model", prop="C20", crate="phys", expr="crate::c20::model", unwind
 for N in (2, 3, 4, 5):
     add(name="c20_row_loop_%d" % N, prop="C20", crate="phys", expr="crate::c20::row_loop::<%d>" % N, unwind=N + 3, cap_s=3600,
         mem_gb=8, est_s=300, family="cbts_rows", funcs=CBTS_FUNCS[1:], witnesses=["all-timestamps", "a-row"],
-        stub=("crate::extracted_cbts::chronobox_time", "crate::c20::chronobox_time_stub"),
         sched="always" if N in (3, 4) else ("pool" if N == 2 else "thorough"), klass="core" if N <= 4 else "best",
         params={"fifo_entries": N, "content": "entry 0 = counter-0 marker, every other entry an arbitrary timestamp or marker"})
 META["C20"] = {
@@ -507,14 +506,15 @@ def octal(seq):
 def b64(seq):
     return sum(d << (6 * i) for i, d in enumerate(seq))
 LEN_BY_ID = {2: (28, 28), 3: (20, 20, 16), 4: (16, 16, 16, 8)}
-def c04(n, ids, lens, sched, kind, klass="core", est=900):
-    name = "c04_n%d_ids%s_len%s" % (n, "".join(map(str, ids)), "_".join(map(str, lens)))
+def c04(n, ids, lens, sched, kind, klass="core", est=900, lite=False):
+    name = "c04%s_n%d_ids%s_len%s" % ("lite" if lite else "", n, "".join(map(str, ids)), "_".join(map(str, lens)))
     if any(i.name == name for i in INSTS):
         return
     wit = {"valid": ["well-formed-set-decoded", "well-formed-set-bad-payload", "faulty-set"],
            "short": ["well-formed-set-bad-payload", "faulty-set"], "fault": ["faulty-set"]}[kind]
-    add(name=name, prop="C04", also=["C01"], crate="det", expr="crate::c04::reassembly::<%d, %d, %d>" % (n, octal(ids), b64(lens)),
-        unwind=12, unwindset=C04_LOOPS, cap_s=4000, mem_gb=14, est_s=est, family="reassembly_" + kind.replace("short", "valid"),
+    add(name=name, prop="C04", also=["C01"], crate="det",
+        expr="crate::c04::reassembly%s::<%d, %d, %d>" % ("_lite" if lite else "", n, octal(ids), b64(lens)),
+        unwind=12, unwindset=C04_LOOPS, cap_s=4000 if not lite else 800, mem_gb=14, est_s=est, family="reassembly_" + kind.replace("short", "valid"),
         funcs=CHUNKS_FUNCS, witnesses=wit, sched=sched, klass=klass,
         params={"chunks": n, "arrival_order_of_ids": list(ids), "payload_lengths": list(lens),
                 "symbolic": "board (2 real boards), chip, end-of-message flag, counters, payload bytes"})
@@ -522,23 +522,27 @@ for n in (2, 3, 4):
     base = LEN_BY_ID[n]
     for perm in _it.permutations(range(n)):
         lens = tuple(base[i] for i in perm)
-        c04(n, perm, lens, "always" if perm == (1, 0) else ("pool" if n <= 3 else "thorough"), "valid",
-            est=900 if n < 4 else 1500, klass="core" if n < 4 else "best")
+        c04(n, perm, lens, "thorough", "valid", est=900 if n < 4 else 1500, klass="best")
+        if n == 2:
+            c04(n, perm, lens, "always" if perm == (1, 0) else "pool", "valid", est=400, lite=True)
 # duplicated / missing ids (every arrival order of each faulty multiset, n = 2, 3)
 for ids in ((0, 0), (1, 1), (0, 2), (1, 2), (0, 7)):
     for perm in sorted(set(_it.permutations(ids))):
-        c04(2, perm, (28, 28), "always" if perm in ((0, 0), (2, 0)) else "pool", "fault")
+        c04(2, perm, (28, 28), "thorough", "fault", klass="best")
+        c04(2, perm, (28, 28), "always" if perm == (0, 0) else "pool", "fault", est=400, lite=True)
 for ids in ((0, 1, 1), (0, 0, 2), (0, 1, 3), (1, 2, 3), (0, 2, 2), (0, 0, 0)):
     for perm in sorted(set(_it.permutations(ids))):
-        c04(3, perm, (20, 20, 16), "pool" if perm[0] != 0 else "thorough", "fault")
+        c04(3, perm, (20, 20, 16), "thorough", "fault", klass="best")
 # a non-final chunk of another size (n = 3), including sizes that differ by less than a 32-bit word
 for by_id in ((20, 16, 16), (16, 20, 16), (20, 17, 16), (18, 20, 16), (20, 19, 17)):
     for perm in _it.permutations(range(3)):
-        c04(3, perm, tuple(by_id[i] for i in perm), "always" if (by_id, perm) == ((20, 17, 16), (1, 2, 0)) else "pool", "fault")
+        c04(3, perm, tuple(by_id[i] for i in perm), "thorough", "fault", klass="best")
+        if by_id == (20, 17, 16):
+            c04(3, perm, tuple(by_id[i] for i in perm), "always" if perm == (1, 2, 0) else "pool", "fault", est=500, lite=True)
 # the final chunk may have any size (well-formed set; total != 56 so the slice decoder rejects the payload)
 for lens_by_id in ((28, 24), (24, 28), (3, 28), (28, 1)):
     for perm in _it.permutations(range(2)):
-        c04(2, perm, tuple(lens_by_id[i] for i in perm), "pool", "short")
+        c04(2, perm, tuple(lens_by_id[i] for i in perm), "thorough", "short", klass="best")
 add(name="c04_empty", prop="C04", also=["C01"], crate="det", expr="crate::c04::reassembly_empty", unwind=6, cap_s=600, mem_gb=4,
     est_s=20, family="reassembly_fault", funcs=CHUNKS_FUNCS[:1], witnesses=["rejected"], params={"chunks": 0})
 for (n, ids, lens) in ((1, (0,), (28,)), (2, (1, 0), (28, 28)), (3, (2, 0, 1), (4, 7, 9)), (2, (0, 0), (0, 1))):
@@ -548,9 +552,11 @@ for (n, ids, lens) in ((1, (0,), (28,)), (2, (1, 0), (28, 28)), (3, (2, 0, 1), (
         family="chunks", funcs=CHUNKS_FUNCS[:2], witnesses=["rejected"], sched="pool" if n == 1 else "thorough", klass="best",
         params={"chunks": n, "ids": list(ids), "payload_lengths": list(lens), "payload": "fully symbolic"})
 META["C04"] = {
-    "pool_k": 1,
-    "budget_s": {"thorough": 5 * 3600},
-    "bounds": "sets of 2, 3 and 4 chunks whose payloads are the pieces of a 56-byte zero-channel packet (28+28, 20+20+16, "
+    "pool_k": 0,
+    "budget_s": {"thorough": 6 * 3600},
+    "bounds": "QUICK: three `lite` instances (arrival order (1,0) of a well-formed pair; duplicate (0,0); three chunks with a non-final "
+              "chunk 3 bytes short) in which a well-formed set must give Ok or BadPayload and a faulty set the documented chunk-level "
+              "error - the comparison with the direct decoding is thorough-tier only. THOROUGH: sets of 2, 3 and 4 chunks whose payloads are the pieces of a 56-byte zero-channel packet (28+28, 20+20+16, "
               "16+16+16+8 bytes): EVERY arrival order of every well-formed set (2!, 3!, 4! instances) and of the faulty multisets "
               "(duplicated id, missing id, non-final chunk of another size incl. sizes differing by 1..3 bytes), each with board (2 real boards), chip, "
               "end-of-message flag, sequence counters and all payload bytes except the two channel masks symbolic; the empty list. "
@@ -564,7 +570,7 @@ META["C04"] = {
 
 
 META["C01"] = {
-    "pool_k": 10,
+    "pool_k": 5,
     "budget_s": {"thorough": 4 * 3600},
     "bounds": "totality (Kani's panic / unwrap / index / arithmetic-overflow / unwinding checks, dev-profile MIR, overflow checks in "
               "every profile) of: AdcV3Packet/AdcPacket::try_from for every content of lengths 0..=40 and 160..=171; TrgV3Packet/"
